@@ -40,6 +40,10 @@ CLAIMED = {
          "Decides the static clause of C20: every byte of every IV/nonce/salt passed to Seal/NewCTR/nonce-named parameters in producing functions lies in a region completely filled by a dominating CSPRNG fill and is not written in between; the wrappers pass whole buffers to crypto/rand and do not mask; every stdlib generator/signing reader is crypto/rand.Reader; streaming writers draw salt and nonce prefix per call; every encapsulate draws fresh randomness on every success path and keeps nothing in the shared KEM object; hedged PQ signing fills its whole randomness array; every key creator draws its material from the CSPRNG with the parameters' size. The distribution itself is crypto/rand's (assumed).",
          "Trusted: crypto/rand; go/ssa; the two named deterministic nonce derivations (HPKE computeNonce, streaming generateSegmentNonce) are exceptions whose random inputs are checked.",
          "DESIGN.md §4 C20, §2 engine F"),
+ "C14": ("census of Handle allocation / constructor call sites; must-validate dominance; constant folding of validateKey over the enum product and of every strength validator at its boundaries; guard-shape obligations of Validate's loop",
+         "Decides structural clauses of C14: handles are allocated only in newFromEntries, proto keysets become entries only after Validate()==nil; validateKey accepts exactly {TINK,LEGACY,RAW,CRUNCHY}x{ENABLED,DISABLED,DESTROYED} (every enum constant and an out-of-range probe folded), nil key data rejected; Validate rejects nil/empty keysets, repeated IDs (map fed on every iteration), non-ENABLED or second primaries and succeeds only with an ENABLED primary found; the strength validators reject exactly below the library minimums (AES {16,32}, RSA >=2048 & e=65537, ECDSA curve/hash table incl. every weaker combination, HKDF-PRF, HMAC-PRF, CMAC-PRF) and constructors pass through them. Run-time panic freedom of all parsers and behavioural self-consistency are not decided.",
+         "Trusted: go/ssa; constant propagation over pure validator functions; guard idioms of Validate.",
+         "DESIGN.md §4 C14"),
 }
 
 NOT_APPLICABLE = {
